@@ -1059,20 +1059,13 @@ func (cr *concRun) checkLin(out *ConcOutcome) {
 		op := h.Op
 		keys := keysOf(op)
 		switch op.Kind {
-		case "bulkget", "bulkrefresh", "refresh", "setexpires", "setrefreshable":
+		case "setexpires", "setrefreshable":
 			for _, k := range keys {
 				skip[k] = true
 			}
-			if op.Load != nil {
-				for _, k := range op.Load.Extra { // keys a bulk loader volunteers are written too
-					skip[k] = true
-				}
-			}
 			continue
-		case "invalidateall":
-			for k := 0; k < cr.cc.Cfg.Keys+2; k++ {
-				skip[k] = true
-			}
+		case "bulkget", "bulkrefresh", "refresh", "invalidateall":
+			cr.linMultiKey(h, perKey, skip, c2)
 			continue
 		}
 		if len(keys) != 1 {
@@ -1207,6 +1200,166 @@ func (cr *concRun) checkLin(out *ConcOutcome) {
 				props = withProp(props, "C10") // "a successful load caches the value and returns it"
 			}
 			cr.fail(props, "lin.illegal", k, "history of key %d is not linearizable against the sequential map:%s", k, s)
+		}
+	}
+}
+
+// linMultiKey puts BulkGet, Refresh, BulkRefresh and InvalidateAll into the per-key histories: per
+// key they decompose into the steps the single-key operations already use - a read of the cached
+// value, an observed miss, the installation (or discarding) of a loader result, the removal after
+// a not-found result - over the intervals in which those steps can have happened.
+func (cr *concRun) linMultiKey(h *HistOp, perKey map[int][]porcupine.Operation, skip map[int]bool, c2 func(uint64) int64) {
+	op := h.Op
+	add := func(k int, in linIn, o linOut, call, ret uint64) {
+		perKey[k] = append(perKey[k], porcupine.Operation{ClientId: h.Task + 1, Input: in, Output: o, Call: c2(call), Return: c2(ret) + 1})
+	}
+	allKeys := append([]int(nil), keysOf(op)...)
+	if op.Load != nil {
+		allKeys = append(allKeys, op.Load.Extra...)
+	}
+	if !h.Done {
+		for _, k := range allKeys {
+			skip[k] = true
+		}
+		if op.Kind == "invalidateall" {
+			for k := 0; k < cr.cc.Cfg.Keys+2; k++ {
+				skip[k] = true
+			}
+		}
+		return
+	}
+	if op.Kind == "invalidateall" {
+		// per key: a removal of exactly the value this call reported, or nothing at all
+		for _, ev := range cr.r.Events {
+			if !ev.Atomic || ev.Task != h.Task || ev.OpIdx != h.Idx || h.Task < 0 {
+				continue
+			}
+			if ev.Cause == otter.CauseInvalidation {
+				add(ev.K, linIn{kind: "invalidate"}, linOut{v: ev.V, ok: true}, h.Call, h.Ret)
+			} else if ev.Cause != otter.CauseOverflow && ev.Cause != otter.CauseExpiration {
+				skip[ev.K] = true
+			}
+		}
+		return
+	}
+	var recs []*loadRec
+	for _, l := range cr.r.Loads {
+		if l.Op == op {
+			recs = append(recs, l)
+		}
+	}
+	has := func(l *loadRec, k int) bool {
+		for _, x := range l.Keys {
+			if x == k {
+				return true
+			}
+		}
+		return false
+	}
+	outcome := func(l *loadRec, k int) {
+		// what the finished loader call does to key k: install its value, remove the entry (not
+		// found / omitted), or nothing (error, panic)
+		if l.Exit == 0 {
+			return
+		}
+		end := cr.loadInstallEnd(l)
+		switch {
+		case l.Outcome == "val":
+			if v, ok := l.Ret[k]; ok {
+				add(k, linIn{kind: "install", v: v}, linOut{}, l.Exit, end)
+			} else {
+				add(k, linIn{kind: "uninstall"}, linOut{}, l.Exit, end)
+			}
+		case l.Outcome == "notfound":
+			add(k, linIn{kind: "uninstall"}, linOut{}, l.Exit, end)
+		}
+	}
+	seen := map[int]bool{}
+	for _, k := range keysOf(op) {
+		if seen[k] {
+			continue
+		}
+		seen[k] = true
+		var miss, reload *loadRec
+		for _, l := range recs {
+			if has(l, k) {
+				if l.Reload {
+					reload = l
+				} else {
+					miss = l
+				}
+			}
+		}
+		switch op.Kind {
+		case "refresh", "bulkrefresh":
+			switch {
+			case reload != nil:
+				old := 0
+				for i, x := range reload.Keys {
+					if x == k && i < len(reload.Olds) {
+						old = reload.Olds[i]
+					}
+				}
+				add(k, linIn{kind: "get"}, linOut{v: old, ok: true}, h.Call, reload.Enter)
+				if reload.Bulk {
+					outcome(reload, k) // single reloads are added with the background reloads
+				}
+			case miss != nil:
+				// Refresh looks the entry up quietly, and a quiet look-up can miss a key whose value
+				// is being replaced at that moment (the old node is retired before the new one is
+				// published; no listed property forbids that): no "observed a miss" step, only the
+				// outcome of the load it then started
+				outcome(miss, k)
+			}
+			// neither: it joined a call that was already in flight - no step of its own
+		case "bulkget":
+			v, inRes := h.Res.Map[k]
+			failed := h.Res.Panic || h.Res.Err != ""
+			switch {
+			case miss != nil:
+				add(k, linIn{kind: "observemiss"}, linOut{}, h.Call, miss.Enter)
+				outcome(miss, k)
+				if inRes && (miss.Outcome != "val" || miss.Ret[k] != v) {
+					skip[k] = true // the result carries a value this call's own load did not produce
+				}
+			case reload != nil:
+				old, okOld := 0, false
+				for i, x := range reload.Keys {
+					if x == k && i < len(reload.Olds) {
+						old, okOld = reload.Olds[i], true
+					}
+				}
+				if !okOld || (inRes && v != old) {
+					skip[k] = true
+					break
+				}
+				add(k, linIn{kind: "get"}, linOut{v: old, ok: true}, h.Call, reload.Enter)
+				outcome(reload, k)
+			case failed:
+				// the call failed (error or panic of its own or a joined load): its result map says
+				// nothing about the keys it found cached
+			case inRes:
+				may := false
+				for _, l := range cr.r.Loads {
+					if lv, ok := l.Ret[k]; ok && lv == v && l.Outcome == "val" && l.Enter < h.Ret && cr.loadInstallEnd(l) > h.Call {
+						may = true
+					}
+				}
+				add(k, linIn{kind: "loadres", mayWait: may}, linOut{v: v, ok: true}, h.Call, h.Ret)
+			default:
+				add(k, linIn{kind: "observemiss"}, linOut{}, h.Call, h.Ret)
+			}
+		}
+	}
+	// keys the bulk loader volunteered are installed (by a successful call) as well
+	for _, l := range recs {
+		if l.Outcome != "val" || l.Exit == 0 {
+			continue
+		}
+		for _, k := range sortedKeys(l.Ret) {
+			if !has(l, k) {
+				add(k, linIn{kind: "install", v: l.Ret[k]}, linOut{}, l.Exit, cr.loadInstallEnd(l))
+			}
 		}
 	}
 }
